@@ -317,7 +317,7 @@ func (h *vfE2Pump) episode() {
 	defer os.RemoveAll(dir)
 	opts := NewOptions()
 	opts.Logger = vfE2NopLogger{}
-	opts.TCPAddress, opts.HTTPAddress, opts.HTTPSAddress = "127.0.0.1:0", "127.0.0.1:0", "127.0.0.1:0"
+	opts.TCPAddress, opts.HTTPAddress, opts.HTTPSAddress = vfLoop3()
 	opts.DataPath = dir
 	opts.ClientTimeout = 20 * time.Minute
 	opts.MaxHeartbeatInterval = 20 * time.Minute
